@@ -187,6 +187,35 @@ def run(chk: common.Check):
             posed = pose_float(base, align(u, tgt))
             nslide += bond_slide(chk, found, posed, f"3SGB-subset, S-S {a[0]}{a[1]}-{b[0]}{b[1]} along {tgt}", 300 if chk.thorough else 260)
     nslide += bond_slide(chk, found, base, "3SGB-subset as deposited", 300 if chk.thorough else 60)
+    # an over-coordinated centre (metal with six partners, plus a crowded neighbour): the bond set must not depend on the order in which the
+    # cell list happens to visit the pairs, i.e. on the pose
+    import propka.atom
+    import propka.bonds as B
+    centre = [("Fe", (0.0, 0.0, 0.0))] + [("N", p) for p in ((1.95, 0.1, 0.0), (-1.9, 0.0, 0.15), (0.05, 1.98, 0.0), (0.0, -1.93, 0.1), (0.1, 0.0, 1.97), (0.0, 0.12, -1.9))] \
+        + [("C", (2.9, 1.0, 0.3)), ("C", (-2.8, -0.9, 0.6)), ("O", (1.2, 1.3, 1.1))]
+
+    def perceive_cluster(rot, sh):
+        atoms = []
+        for k, (el, pnt) in enumerate(centre):
+            q = [sum(rot[i][j] * pnt[j] for j in range(3)) + sh[i] for i in range(3)]
+            a = propka.atom.Atom()
+            a.x, a.y, a.z, a.element, a.name, a.numb = round(q[0], 3), round(q[1], 3), round(q[2], 3), el, el, k
+            a.bonded_atoms = []
+            atoms.append(a)
+        B.BondMaker().find_bonds_for_atoms_using_boxes(atoms)
+        return sorted((a.numb, b.numb) for a in atoms for b in a.bonded_atoms if a.numb < b.numb)
+    ref_c = perceive_cluster(rots[0], (0.0, 0.0, 0.0))
+    for ri in range(24):
+        for sh in ((0.0, 0.0, 0.0), (1.3, -0.7, 2.2), (-77.123, 40.5, 0.004)):
+            got = perceive_cluster(rots[ri], sh)
+            nslide += 1
+            if got != ref_c:
+                found.append(("bonds-depend-on-pose:over-coordinated-centre", f"six-coordinate centre, rotation #{ri} shift {sh}: bonds {sorted(set(got) ^ set(ref_c))[:4]} differ from the first pose "
+                              f"({len(got)} vs {len(ref_c)} bonds)", {"atoms": centre, "rotation": rots[ri], "shift": sh}))
+                break
+        else:
+            continue
+        break
     chk.cov["bond_perception_poses"] = nslide
 
     # ---------------------------------------------------------------- (2) full runs
